@@ -863,3 +863,75 @@ Proof.
   change (events (ms (d_m d')) = l ++ events (ms (d_m d))).
   rewrite <- (eqh_events _ _ E), <- (eqh_events _ _ Ee'). exact Hl.
 Qed.
+
+(* ---------- run() returns at the FIRST tick after which a predicate holds ---------- *)
+
+Lemma mtick_count m x : mn (rstate (mtick m x)) = mn x + 1.
+Proof. unfold mtick. destruct (tick m (ms x)); reflexivity. Qed.
+
+Lemma mtick_state m x x' : mtick m x = RDone x' -> tick m (ms x) = Next (ms x').
+Proof. unfold mtick. destruct (tick m (ms x)); intros H; inversion H; reflexivity. Qed.
+
+Lemma run_loop_halted m di bps t fuel x :
+  halted (ms x) = true -> rstate (run_loop m di bps t fuel x) = x.
+Proof. intros H. destruct fuel; simpl; [reflexivity |]. rewrite H. reflexivity. Qed.
+
+(* no breakpoint predicate holds and the machine is running *)
+Definition quiet (m : module) (di : dbginfo) (bps : list Z) (t : tbp) (s : st) : Prop :=
+  check_bps m di bps t s = Ok None /\ halted s = false.
+
+Lemma run_loop_first m di bps t : forall fuel x k sk,
+  (0 < k)%nat -> Z.of_nat k < mn (rstate (run_loop m di bps t fuel x)) - mn x ->
+  ticks m k (ms x) = Some sk -> quiet m di bps t sk.
+Proof.
+  induction fuel; intros x k sk K L T; simpl in L; [lia |].
+  destruct (halted (ms x)); [simpl in L; lia |].
+  destruct (pc (ms x) >=? code_len m); [simpl in L; lia |].
+  pose proof (mtick_count m x) as MC.
+  destruct (mtick m x) as [x' | x' h | c x' | x' | x'] eqn:Em; simpl in *; try lia.
+  pose proof (mtick_state m x x' Em) as Tk.
+  destruct (check_bps m di bps t (ms x')) as [[h|] | c] eqn:C; simpl in L; try lia.
+  destruct k as [|k']; [lia |]. simpl in T. rewrite Tk in T.
+  destruct k' as [|k''].
+  - simpl in T. inversion T; subst sk. split; [exact C |].
+    destruct (halted (ms x')) eqn:Hh; [| reflexivity].
+    rewrite (run_loop_halted m di bps t fuel x' Hh) in L. lia.
+  - apply (IHfuel x' (S k'') sk); [lia | lia | exact T].
+Qed.
+
+Lemma continue_first_breakpoint m di fuel d :
+  d_status d = Live -> blocked (d_st d) = false ->
+  let d' := exec_cmd m di fuel d CContinue in
+  forall k sk, (0 < k)%nat -> Z.of_nat k < mn (d_m d') - mn (d_m d) ->
+  ticks m k (set_halt (d_st d) false H_NONE) = Some sk ->
+  user_hit (d_bps d) (pc sk) = None /\ halted sk = false.
+Proof.
+  intros L B d' k sk K Lk T. unfold d', exec_cmd in Lk. rewrite L, B in Lk. rewrite finish_mn in Lk.
+  unfold cpu_run in Lk.
+  destruct (run_loop_first m di (d_bps d) TNoTemp fuel _ k sk K Lk T) as [Q1 Q2].
+  split; [| exact Q2]. unfold check_bps in Q1.
+  destruct (user_hit (d_bps d) (pc sk)); [discriminate | reflexivity].
+Qed.
+
+(* step: every state strictly before the stop is in no statement or in the
+   statement the step started in (and on no user breakpoint, and running) *)
+Lemma step_first_change m di fuel d stmt :
+  d_status d = Live -> blocked (d_st d) = false ->
+  find_nonempty m di (pc (d_st d)) = Ok (Some stmt) ->
+  let d' := exec_cmd m di fuel d CStep in
+  forall k sk, (0 < k)%nat -> Z.of_nat k < mn (d_m d') - mn (d_m d) ->
+  ticks m k (set_halt (d_st d) false H_NONE) = Some sk ->
+  user_hit (d_bps d) (pc sk) = None /\ halted sk = false /\
+  (find_nonempty m di (pc sk) = Ok None \/
+   exists r, find_nonempty m di (pc sk) = Ok (Some r) /\ rec_eqb r stmt = true).
+Proof.
+  intros L B F d' k sk K Lk T. unfold d', exec_cmd, do_step in Lk. rewrite L, B, F in Lk.
+  rewrite finish_mn in Lk. unfold cpu_run in Lk.
+  destruct (run_loop_first m di (d_bps d) (TStep (Some stmt)) fuel _ k sk K Lk T) as [Q1 Q2].
+  unfold check_bps in Q1.
+  destruct (user_hit (d_bps d) (pc sk)); [discriminate |].
+  split; [reflexivity |]. split; [exact Q2 |].
+  destruct (find_nonempty m di (pc sk)) as [[r|] | c]; try discriminate.
+  - right. exists r. split; [reflexivity |]. destruct (rec_eqb r stmt); [reflexivity | discriminate].
+  - left. reflexivity.
+Qed.
